@@ -644,6 +644,11 @@ ALLOCATORS = {"new_decoder": "destroy_decoder", "fopen": "fclose", "malloc": "fr
 RELEASERS = set(ALLOCATORS.values())
 
 
+def _null_key(k):
+    import re
+    return k == "#0" or bool(re.fullmatch(r"(cast<[^>]*>\()+#0\)+", k))
+
+
 def rule_resource_typestate(prog, fixture=False):
     from ..flow import PathStates
     r = RuleResult("R-C08-8", "a pointer obtained from new_decoder/fopen/malloc is never used after it was handed to "
@@ -699,7 +704,7 @@ def rule_resource_typestate(prog, fixture=False):
                             return "N" if st in ("V", "?", "N") else st
                         if k[2] is True and st == "N":
                             return None
-                    if k[0] == "C" and k[1] == "d%s" % d and k[3] == "#0":
+                    if k[0] == "C" and ((k[1] == "d%s" % d and _null_key(k[3])) or (k[3] == "d%s" % d and _null_key(k[1]))):
                         if k[2] == "==":
                             return "N" if st in ("V", "?", "N") else st
                         if k[2] == "!=" and st == "N":
@@ -721,13 +726,14 @@ def rule_resource_typestate(prog, fixture=False):
                     key = "%s::%s::%s@%s" % (fn.relfile(), fn.qn, name, notpl(n.get("q") or "?"))
                     bad = sorted(x for x in sts if x in ("D", "N", "U"))
                     isrel = notpl(n.get("q") or "") in RELEASERS
-                    if isrel:
-                        bad = [x for x in bad if x in ("D", "U")]
+                    if isrel and notpl(n.get("q") or "") not in ("fclose", "pclose", "closedir"):
+                        bad = [x for x in bad if x in ("D", "U")]       # free(NULL) and wrappers of free are harmless
                     words = {"D": "already released", "N": "NULL", "U": "not yet assigned"}
                     r.add(key, fn.loc(n), not bad, "valid on every path" if not bad else
-                          "`%s` is passed to %s on a path where it is %s: the object is used after it was destroyed "
-                          "(e.g. the second input file of one command line)" %
-                          (name, notpl(n.get("q") or "?"), " or ".join(words[x] for x in bad)))
+                          "`%s` is passed to %s on a path where it is %s: %s" %
+                          (name, notpl(n.get("q") or "?"), " or ".join(words[x] for x in bad),
+                           "the object is used after it was destroyed (e.g. the second input file of one command line)"
+                           if "D" in bad else "the call dereferences an invalid pointer and the program dies with a signal"))
     return r
 
 
